@@ -75,6 +75,7 @@ extern _Bool __verif_crash_is_bug;  /* harness: inputs are valid, crash must be 
 #define LOGM(i) (__verif_log[i].mo)
 #define IS_COMMIT(i, ptr) (LOGK(i) == EV_COMMIT && LOGP(i) == (const volatile void *)(ptr))
 #define VIMPL(a, b) (!(a) || (b))
+#define LAST (__verif_n - 1)
 
 /* ------------------------------------------------------------------ */
 #ifdef VERIF_NATIVE
@@ -327,6 +328,9 @@ static inline void __verif_trap(void)
 #define VERIF_POST_VOID(name, ...) __verif_post_##name(__VA_ARGS__)
 #define VERIF_ASSERT(name, ...) do { if (!(__VA_ARGS__)) __verif_native_fail("assert", #name); } while (0)
 #endif
+
+/* side-car loop contract for the k-th loop (for/while/do) of a repository function */
+#define VERIF_LOOP_CONTRACT(function, k, ...) __VERIF_LOOPDEF(function, k, __VA_ARGS__)
 
 /* typed nondeterministic inputs, all flowing through __verif_nd() so that a
  * counterexample is a replayable script */
